@@ -156,6 +156,30 @@ def correspond(ctx):
                 realz = ["err", core.err_name(e)]
         lines.append(f"(facts {decls} " + " ".join(cs) + ")")
         meta.append(("facts", cs, decls, keyflags, (real, realz), list(s.is_answer_key)))
+        # the answer must not depend on what earlier queries on the SAME unchanged Solver left behind (in the Solver, in the
+        # variables or in a backend object): ask again, with find_answer() or a key promotion in between
+        for rep in range(2):
+            how = ctx.rng.choice(["solve-again", "find_answer-then-solve", "promote-key-then-solve"])
+            with warnings.catch_warnings():
+                warnings.simplefilter("ignore")
+                try:
+                    if how == "find_answer-then-solve":
+                        fa = core.with_timeout(10, s.find_answer, "z3")
+                        if realz[0] != "err" and fa != realz[0]:
+                            ctx.disagree("history:find_answer-after-solve", constraints=cs, decls=decls, keys=keyflags,
+                                         real=sx(fa), spec=sx(realz[0]))
+                    elif how == "promote-key-then-solve":
+                        rest = [v for v, k in zip(s.variables, s.is_answer_key) if not k]
+                        if rest:
+                            s.add_answer_key(ctx.rng.choice(rest))
+                    r = core.with_timeout(10, s.solve, "z3")
+                    realr = [r, _key_sols(s)]
+                except Exception as e:
+                    realr = ["err", core.err_name(e)]
+            ctx.count("history:" + how)
+            kf = sx(list(s.is_answer_key))
+            lines.append(f"(facts {decls} " + " ".join(cs) + ")")
+            meta.append(("facts", cs, decls, kf, (realr, realr), list(s.is_answer_key)))
         nontrivial = real[0] is True and any(s.is_answer_key)
         ctx.case({"decls": decls, "keys": keyflags, "constraints": cs[:3], "real": sx(real)}, (decls, keyflags, " ".join(cs)) if nontrivial else None)
         ctx.count(f"calls:{len(log['answers'])}")
@@ -170,7 +194,7 @@ def correspond(ctx):
                 ctx.disagree("refinement-loop", constraints=m[1], decls=m[2], keys=m[3], real=sx(real), model=out)
         else:
             keys = m[5]
-            for tag, real in (("mock", m[4][0]), ("z3", m[4][1])):
+            for tag, real in ((("mock", m[4][0]), ("z3", m[4][1])) if m[4][0] is not m[4][1] else (("z3-repeated", m[4][0]),)):
                 if real[0] == "err":
                     ctx.disagree("solve-exception:" + tag, constraints=m[1], decls=m[2], exception=real[1])
                     continue
@@ -209,11 +233,13 @@ def search(ctx, why):
         cs = [exprio.pexpr(c) for c in s.constraints]
         decls = [exprio.pdecl(v) for v in s.variables]
         ctx.extra["last_case"] = {"decls": decls, "keys": list(s.is_answer_key), "constraints": cs}
-        for tag in ("z3", "mock"):
+        for tag in ("z3", "mock", "z3-again", "z3-after-find_answer"):
             with warnings.catch_warnings():
                 warnings.simplefilter("ignore")
                 try:
-                    r = core.with_timeout(10, s.solve, "z3") if tag == "z3" else core.with_timeout(10, s.solve, backend=make_mock(ctx.rng, {"calls": [], "answers": []}))
+                    if tag == "z3-after-find_answer":
+                        core.with_timeout(10, s.find_answer, "z3")
+                    r = core.with_timeout(10, s.solve, "z3") if tag != "mock" else core.with_timeout(10, s.solve, backend=make_mock(ctx.rng, {"calls": [], "answers": []}))
                 except Exception as e:
                     r = "err:" + core.err_name(e)
             got = [v.sol for v in s.variables]
@@ -233,7 +259,8 @@ def search(ctx, why):
                 sig = "solve:" + tag + ":" + (kind if r is True else "verdict")
                 if sig not in found:
                     found[sig] = Finding(sig, f"Solver.solve({tag}) on decls={decls} keys={list(s.is_answer_key)} constraints={cs}: {bad}",
-                                         {"decls": decls, "keys": list(s.is_answer_key), "constraints": cs, "backend": tag})
+                                         {"decls": decls, "keys": list(s.is_answer_key), "constraints": cs,
+                                          "backend": "mock" if tag == "mock" else "z3"})
     return list(found.values())
 
 
@@ -241,7 +268,7 @@ def replay(ctx, data):
     """Re-run the stored program under three histories: fresh Solver; find_answer() first; solve() with only the first key, then
     the remaining keys added."""
     import warnings
-    for variant in ("fresh", "find_answer", "two-phase"):
+    for variant in ("fresh", "find_answer", "two-phase", "solve-twice"):
         keys = list(data["keys"])
         first = [i for i, k in enumerate(keys) if k][:1]
         s = exprio.build_session(data["decls"], data["constraints"], keys if variant != "two-phase" else [i in first for i in range(len(keys))])
@@ -250,6 +277,9 @@ def replay(ctx, data):
             warnings.simplefilter("ignore")
             try:
                 if variant == "find_answer":
+                    core.with_timeout(10, s.find_answer, "z3")
+                elif variant == "solve-twice":
+                    core.with_timeout(10, s.solve, "z3")
                     core.with_timeout(10, s.find_answer, "z3")
                 elif variant == "two-phase":
                     core.with_timeout(10, s.solve, "z3")
